@@ -8,7 +8,7 @@
 (* code returned; the invariant compares it with what the specification    *)
 (* computes.                                                               *)
 (***************************************************************************)
-EXTENDS CloverPlan, CloverNorm, CloverStore, Json, IOUtils
+EXTENDS CloverPlan, CloverNorm, CloverStore, CloverKV, Json, IOUtils
 
 Log == ndJsonDeserialize(IOEnv.TRACE_FILE)
 
@@ -125,6 +125,33 @@ PlanModelOk(e) ==
                /\ e.ranges[1][3] = (IF IsEmptyM(p.range) THEN 1 ELSE 0)
 InvPlanModel == (HaveLast /\ Last.kind = "plan" /\ Last.panicked = 0) => PlanModelOk(Last)
 
+(* C06 C13 C14: the keys the code sets, deletes and seeks for a collection, a document and an     *)
+(* index are the ones CloverKV builds (whose isolation laws MC_KV checks for all names).           *)
+SetOf(x) == {x[i] : i \in DOMAIN x}
+KeysOk(e) ==
+    LET M  == MetaKey(e.name)
+        D  == DocKey(e.name, e.id)
+        DP == DocPrefix(e.name)
+        IP == IdxPrefix(e.name, e.field)
+        En == e.entry
+        PhaseOk(ph) ==
+            /\ ph.st = "ok"
+            /\ SetOf(ph.gets) \subseteq {M, D}
+            /\ CASE ph.ph = "create"         -> SetOf(ph.sets) = {M} /\ ph.dels = <<>> /\ ph.seeks = <<>>
+                 [] ph.ph = "insert"         -> SetOf(ph.sets) = {M, D} /\ ph.dels = <<>>
+                 [] ph.ph = "createindex"    -> SetOf(ph.sets) = {M, En} /\ ph.dels = <<>> /\ SetOf(ph.seeks) = {DP}
+                 [] ph.ph = "scan"           -> ph.sets = <<>> /\ ph.dels = <<>> /\ SetOf(ph.seeks) = {DP}
+                 [] ph.ph = "indexscan"      -> /\ ph.sets = <<>> /\ ph.dels = <<>>
+                                                /\ \A k \in SetOf(ph.seeks) : k = DP \/ HasPrefix(k, IP)
+                 [] ph.ph = "list"           -> ph.sets = <<>> /\ ph.dels = <<>> /\ SetOf(ph.seeks) = {MetaPrefix}
+                 [] ph.ph = "dropindex"      -> SetOf(ph.sets) = {M} /\ SetOf(ph.dels) = {En} /\ SetOf(ph.seeks) = {IP}
+                 [] ph.ph = "dropcollection" -> /\ SetOf(ph.sets) \subseteq {M} /\ SetOf(ph.dels) = {M, D, En}
+                                                /\ \A k \in SetOf(ph.seeks) : k = DP \/ k = IP
+    IN /\ Free(e.name) /\ Free(e.field)
+       /\ \E t \in TypeIds : HasPrefix(En, IdxTypePrefix(e.name, e.field, t))
+       /\ Len(En) >= Len(e.id) /\ Suffix(En, Len(e.id)) = e.id
+       /\ \A i \in DOMAIN e.phases : PhaseOk(e.phases[i])
+
 LineOk(e) ==
     CASE e.kind = "values"    -> ValuesOk(e) /\ ValuesModelOk(e)
       [] e.kind = "satisfy"   -> SatisfyOk(e)
@@ -135,6 +162,7 @@ LineOk(e) ==
       [] e.kind = "docpath"   -> DocPathOk(e)
       [] e.kind = "cursor"    -> CursorOk(e)
       [] e.kind = "plan"      -> PlanOk(e)
+      [] e.kind = "keys"      -> KeysOk(e)
       [] e.kind = "Reset"     -> TRUE
 
 InvAux == HaveLast => LineOk(Last)
